@@ -1,0 +1,38 @@
+//go:build verif
+
+package backendpb
+
+// Contracts for govc (see /verif/DESIGN.md).  Comment-only file.
+
+//@ import grpc google.golang.org/grpc
+//@ import billstat github.com/AdguardTeam/AdGuardDNS/internal/billstat
+
+// ---------------------------------------------------------------------------
+// C16: an upload that did not get every record through reports an error, so
+// that the recorder merges the records back.
+
+// sendFails counts the Send calls on billing streams that returned an error.
+//@ ghost sendFails int
+//@ ghost sendsOK int
+//@ interface grpc.ClientStreamingClient method Send
+//@   modifies sendFails, sendsOK
+//@   ensures sendFails == old(sendFails) + (result != nil ? 1 : 0) && sendsOK == old(sendsOK) + (result == nil ? 1 : 0)
+//@ interface grpc.ClientStreamingClient method CloseAndRecv
+//@   modifies nothing
+//@ interface DNSServiceClient method SaveDevicesBillingStat
+//@   modifies nothing
+//@   ensures r1 == nil ==> ref(r0) != 0
+//@ func fixGRPCError
+//@   modifies nothing
+//@ func ctxWithAuthentication
+//@   modifies nothing
+//@ func recordToProtobuf
+//@   modifies nothing
+
+//@ func (*BillStat).Upload
+//@   property C16
+//@   requires b != nil && ref(b.client) != 0 && b.logger != nil
+//@   modifies sendFails, sendsOK
+//@   ensures a-failed-send-is-reported: sendFails > old(sendFails) ==> err != nil
+//@   ensures sendFails <= old(sendFails) + 1
+//@   loop 1 invariant sendFails == old(sendFails)
